@@ -537,6 +537,9 @@ func runExtCmp(c *Case, tr *Trace) {
 		if consumer == "unfold" {
 			// the unfolder as a consumer: one interface{} target per top-level value
 			un, _ = gotype.NewUnfolder(nil)
+			if kc, ok := c.Sub["keycache"].(float64); ok {
+				un.EnableKeyCache(int(kc))
+			}
 			tgt = new(interface{})
 			if err := un.SetTarget(tgt); err != nil {
 				r.errAt, r.msg = 1, err.Error()
